@@ -56,3 +56,13 @@ func init() {
 		ruleGRDscope(w, r)
 	})
 }
+
+func init() {
+	register("C08", "metadata filters select exactly the matching live vectors", func(w *World, r *Report) {
+		ruleSIB1(w, r)
+		ruleTBLops(w, r)
+		ruleGRDlive(w, r)
+		ruleGRDalias(w, r)
+		ruleSIBsame(w, r)
+	})
+}
